@@ -118,14 +118,16 @@ fn tx_date(ym: (i32, u32), what: &str) -> NaiveDate {
     // BUY on the last day of its month, DIVIDEND and the far SELL on the first, the near SELL on the last
     let d = match what {
         "buy_price" | "buy_fees" => last_day(ym.0, ym.1),
-        "div_total" | "div_tax" => 1,
+        "div_total" | "div_tax" | "cr_total" | "cr_fees" | "ac_total" | "ac_tax" => 1,
         _ => if ym.0 > 2030 { 1 } else { last_day(ym.0, ym.1) },
     };
     NaiveDate::from_ymd_opt(ym.0, ym.1, d).unwrap_or_default()
 }
 
 fn amount_of(what: &str) -> Decimal {
-    Decimal::from(match what { "buy_price" => 8, "buy_fees" => 2, "div_total" => 6, "div_tax" => 1, "sell_price" => 12, _ => 1 })
+    // the capital return is small against the purchase whatever the (synthetic) rates, so s122 never refuses it
+    match what { "cr_total" => return Decimal::new(6, 2), "cr_fees" => return Decimal::new(1, 2), _ => {} }
+    Decimal::from(match what { "buy_price" => 8, "buy_fees" => 2, "div_total" | "ac_total" => 6, "div_tax" | "ac_tax" => 1, "sell_price" => 12, _ => 1 })
 }
 
 fn ledger(rec: &FxRec, conv: Option<&[Decimal]>) -> Vec<Transaction> {
@@ -138,7 +140,11 @@ fn ledger(rec: &FxRec, conv: Option<&[Decimal]>) -> Vec<Transaction> {
     };
     vec![
         Transaction { date: tx_date(rec.fields[0].ym, "buy_price"), ticker: "AAA".into(), operation: Operation::Buy { amount: Decimal::from(10), price: money(0), fees: money(1) } },
-        Transaction { date: tx_date(rec.fields[2].ym, "div_total"), ticker: "AAA".into(), operation: Operation::Dividend { total_value: money(2), tax_paid: money(3) } },
+        Transaction { date: tx_date(rec.fields[2].ym, "div_total"), ticker: "AAA".into(), operation: match rec.fields[2].what.as_str() {
+            "cr_total" => Operation::CapReturn { amount: Decimal::from(10), total_value: money(2), fees: money(3) },
+            "ac_total" => Operation::Accumulation { amount: Decimal::from(10), total_value: money(2), tax_paid: money(3) },
+            _ => Operation::Dividend { total_value: money(2), tax_paid: money(3) },
+        } },
         Transaction { date: tx_date(rec.fields[4].ym, "sell_price"), ticker: "AAA".into(), operation: Operation::Sell { amount: Decimal::from(5), price: money(4), fees: money(5) } },
     ]
 }
@@ -267,7 +273,7 @@ fn main() {
         let txs = ledger(rec, None);
         let input_text = format!("{}# folder: {}", to_dsl(&txs), serde_json::to_string(&rec.files).unwrap_or_default());
         let mut push = |kind: &str, detail: String| {
-            let prop = if kind == "fx_cost_not_conserved" { "C03" } else if kind == "fx_net_proceeds" { "C04" } else { "C08" };
+            let prop = if kind == "fx_cost_not_conserved" { "C03" } else if kind == "fx_net_proceeds" { "C04" } else if kind == "fx_event_amount" { "C11" } else { "C08" };
             findings.push(Finding { prop: prop.into(), kind: kind.into(), case: case_no, detail, input: input_text.clone(), data: json!({"expected": rec.result}) });
         };
         cnt.inc("cases");
@@ -302,11 +308,16 @@ fn main() {
                 if !okc { eprintln!("case {case_no}: cannot determine expected rates"); std::process::exit(2); }
                 if rec.fields.iter().filter(|f| f.cur != "GBP").count() >= 2 { cnt.inc("multi_foreign_field"); }
                 // C03 in foreign currency: legs + closing cost = quantity x price + fees, each converted at its own rate
-                let spent = Decimal::from(10) * conv[0] + conv[1];
+                // ... plus what an accumulation adds and minus the net capital return (C11), each amount at its own rate
+                let ev = rec.fields[2].what.as_str();
+                let spent = Decimal::from(10) * conv[0] + conv[1] + match ev { "ac_total" => conv[2], "cr_total" => -(conv[2] - conv[3]), _ => Decimal::ZERO };
                 let legs: Decimal = rep.tax_years.iter().flat_map(|y| y.disposals.iter()).flat_map(|d| d.matches.iter()).map(|m| m.allowable_cost).sum();
                 let held: Decimal = rep.holdings.iter().map(|h| h.total_cost).sum();
                 if (legs + held - spent).abs() > Decimal::new(1, 12) {
                     push("fx_cost_not_conserved", format!("legs + closing cost = {}, GBP expenditure (price and fees each at the rate of its own currency and month) = {spent}", legs + held));
+                    if ev != "div_total" {
+                        push("fx_event_amount", format!("legs + closing cost = {}; with the {} of 1 February valued at the rates of its own currencies it should be {spent}", legs + held, if ev == "cr_total" { "capital return (total less fees)" } else { "accumulation" }));
+                    }
                 }
                 // C04 in foreign currency: net proceeds = gross proceeds - the sale's fees, each valued at its own rate
                 let gross: Decimal = rep.tax_years.iter().flat_map(|y| y.disposals.iter()).map(|d| d.gross_proceeds).sum();
